@@ -1,4 +1,5 @@
 import I18n.Model.Plural
+import I18n.Model.PluralParse
 import I18n.Driver.Util
 /- Driver for the plural-expression models: prefix (Polish) encoding of `Expr`. -/
 namespace I18n.Driver.Plural
@@ -74,6 +75,11 @@ def handle (op : String) (args : List String) : String :=
     match parseExpr e with
     | some (e, []) => showOptPair (period bits.toNat! e)
     | _ => "bad-op"
+  | "parse", [h] =>
+    match I18n.PluralParse.parse (Driver.unhexChars h) with
+    | .ok e => s!"ok {showExpr e}"
+    | .syntaxError => "err syntax"
+    | .valueError => "err ValueError"
   | "gcd", [x, y] => showInt (I18n.Generated.Intexpr.gcd (Driver.parseInt x) (Driver.parseInt y))
   | "lcm", x :: ys => showInt (I18n.Generated.Intexpr.lcm (Driver.parseInt x) (ys.map Driver.parseInt))
   | _, _ => "bad-op"
